@@ -474,6 +474,74 @@ def r01_7(ctx):
     ctx.decide('R01.7', mb.qual, 'boundary rule: one node at the face coordinate with weight 1', ok, mb.node)
 
 
+def _delimited(e):
+    """True / False / None: does the string expression e start with an opening and end with a closing delimiter?
+    (concatenation chains, %-formats and f-strings of literal pieces; None when not a recognised string construction)"""
+    if isinstance(e, ast.BinOp) and isinstance(e.op, ast.Add):
+        parts = []
+
+        def flat(x):
+            if isinstance(x, ast.BinOp) and isinstance(x.op, ast.Add):
+                flat(x.left)
+                flat(x.right)
+            else:
+                parts.append(x)
+        flat(e)
+        first, last = parts[0], parts[-1]
+        if isinstance(first, ast.Constant) and isinstance(first.value, str) and isinstance(last, ast.Constant) and isinstance(last.value, str):
+            return first.value.lstrip().startswith('(') and last.value.rstrip().endswith(')')
+        if isinstance(first, ast.Constant) and isinstance(first.value, str) and not first.value.lstrip().startswith('('):
+            return False
+        return False if all(not (isinstance(p, ast.Constant) and isinstance(p.value, str) and ('(' in p.value or ')' in p.value)) for p in parts) else None
+    if isinstance(e, ast.BinOp) and isinstance(e.op, ast.Mod) and isinstance(e.left, ast.Constant) and isinstance(e.left.value, str):
+        s = e.left.value.strip()
+        return s.endswith(')') and (s.startswith('(') or re.match(r'^[%\w{}.]+\(', s) is not None)
+    if isinstance(e, ast.Call) and isinstance(e.func, ast.Attribute) and e.func.attr == 'format' and isinstance(e.func.value, ast.Constant):
+        s = str(e.func.value.value).strip()
+        return s.endswith(')') and (s.startswith('(') or re.match(r'^[\w{}.]+\(', s) is not None)
+    if isinstance(e, ast.Call) and isinstance(e.func, ast.Attribute) and e.func.attr == 'join':
+        return False            # a bare infix chain
+    if isinstance(e, ast.Name):
+        return None
+    return None
+
+
+def r01_10(ctx):
+    """The expression emitter is context free: gencode(x) gets no precedence information about where the text will be
+    placed.  An infix expression that is emitted without enclosing parentheses is therefore re-associated by C as soon as
+    it becomes the operand of a tighter or non-associative operator (x / (a*b) -> x / a * b)."""
+    gen = ctx.prog.cls(CG + '.CodegenVisitor')
+    m = gen.methods.get('gencode_scalaroper')
+    if m is None:
+        raise AnchorMissing('R01.10: CodegenVisitor.gencode_scalaroper')
+    ctxfree = all(len(c.args) == 1 and not c.keywords for c in ast.walk(m.node) if isinstance(c, ast.Call) and src(c.func) == 'self.gencode')
+    local = {}
+    for s in own_nodes(m.node):
+        if isinstance(s, ast.Assign) and len(s.targets) == 1 and isinstance(s.targets[0], ast.Name):
+            local.setdefault(s.targets[0].id, []).append(s.value)
+    rets = [r for r in guards.returns_of(m.node) if r.value is not None]
+    ctx.floor('R01.10', 'returns of gencode_scalaroper', len(rets), 1)
+    for r in rets:
+        v = r.value
+        if isinstance(v, ast.Name) and len(local.get(v.id, [])) == 1:
+            v = local[v.id][0]
+        d = _delimited(v)
+        conds = ' and '.join(('' if p else 'not ') + t for (t, p, _n) in guards.path_conditions(r)) or 'always'
+        if d is True:
+            ctx.met('R01.10', m.qual, 'infix expression emitted in parentheses (%s)' % conds, r, src(r.value)[:80])
+        elif d is False and ctxfree:
+            ctx.violated('R01.10', m.qual, 'infix expression emitted in parentheses (%s)' % conds, r,
+                         '`%s` returns the operator chain without enclosing parentheses, but operands are emitted context-free: as the divisor '
+                         'of a quotient or the subtrahend of a difference the text is re-associated by C (x / (a*b) becomes x / a * b)' % src(r)[:90])
+        else:
+            ctx.undecided('R01.10', m.qual, 'infix expression emitted in parentheses (%s)' % conds, r, 'string construction not recognised')
+    # unary minus binds tighter than any infix operator only if its operand is atomic or parenthesised: operands are
+    # ScalarOperExpr (parenthesised above), calls, constants, references
+    ng = gen.methods.get('gencode_neg')
+    if ng is not None:
+        ctx.expect_return('R01.10', ng, "'-' + self.gencode(expr.x)", 'negation of a self-delimiting operand')
+
+
 def r01_9(ctx):
     """The compiled kernel computes the integrand only if common-subexpression extraction merges equal expressions
     exclusively: the structural hash must separate expressions that differ in an identifying attribute or in the order
@@ -493,3 +561,4 @@ def run(ctx):
     r01_6(ctx)
     r01_7(ctx)
     r01_9(ctx)
+    r01_10(ctx)
